@@ -9,6 +9,17 @@ ODO = [("QuartzModel.Proofs.Odometer", t) for t in ["Odo.findForward_spec", "Odo
 SCHEDFACTS = [("QuartzModel.Theorems.SchedFacts", "Sched." + t) for t in ["validate_branches", "misfire_offer_nonblocking", "step_order", "classify_spec"]]
 
 THEOREMS = {
+    "C16": [("QuartzModel.Theorems.Facts", "Facts.missing_none")] + [("QuartzModel.Theorems.C16", "Jobs." + t) for t in [
+        "C16_facts_tests", "C16_facts_function", "C16_facts_shell", "C16_facts_curl", "C16_facts_accessors",
+        "C16_function_status_iff", "C16_shell_status_iff", "C16_status_total", "C16_shell_status_exit", "C16_curl_status_iff",
+        "C16_curl_status_failure_iff", "C16_status_iff_code", "C16_function_fields", "C16_shell_fields", "C16_curl_fields",
+        "C16_last_execution", "C16_store_order", "C16_serialised", "C16_last_execution_function", "C16_last_execution_shell",
+        "C16_last_execution_curl", "C16_fields_mix_without_lock", "C16_callback_once", "C16_open_bodies_le_one",
+        "C16_open_bodies_le_one_concurrent", "C16_leak_without_close", "C16_leak_unbounded"]],
+    "C18": [("QuartzModel.Theorems.Facts", "Facts.missing_none")] + [("QuartzModel.Theorems.C18", "Logger." + t) for t in [
+        "C18_facts", "C18_facts_output", "C18_facts_slog", "C18_filter", "C18_filter_line", "C18_off_silences_all", "C18_trace_emits_all",
+        "C18_level_order", "C18_format", "C18_format_indexed", "C18_format_shapes", "C18_output_line", "C18_label", "C18_complete",
+        "C18_mutex", "C18_label_race", "C18_label_race_locked", "C18_noop", "C18_slog_level_map", "C18_slog_attrs"]],
     "C13": [("QuartzModel.Theorems.C13", "Sched.Retry." + t) for t in [
         "C13_facts", "C13_attempts", "C13_attempts_general", "C13_attempts_structure", "C13_stops_on_success", "C13_cancel_stops",
         "C13_cancel_bound", "C13_cancelled_last", "C13_interval", "C13_interval_time", "C13_panic_ends_sequence", "C13_recovered_iff", "C13_returns"]],
